@@ -270,6 +270,7 @@ func runPatches(u *universe, sched [][]string) (pending []string, reply string) 
 		done <- res{ps: ps, err: err}
 	}()
 	var pend []*call
+	deviated := false
 	fail := func(msg string) ([]string, string) {
 		close(abort)
 		// drain so that the aborted ComputePatches can finish
@@ -294,11 +295,14 @@ func runPatches(u *universe, sched [][]string) (pending []string, reply string) 
 		for n := len(want); n > 0; n-- {
 			select {
 			case c := <-announce:
+				// a call with ids the table does not predict is NOT fatal: the run goes on with what the implementation
+				// really asked for (dev=1 in the reply), so that its final result can be judged against the specification
 				k := key(c.ids)
 				if need[k] == 0 {
-					return "unexpected-call"
+					deviated = true
+				} else {
+					need[k]--
 				}
-				need[k]--
 				pend = append(pend, c)
 			case r := <-done:
 				done <- r
@@ -384,10 +388,14 @@ func runPatches(u *universe, sched [][]string) (pending []string, reply string) 
 				}
 			}
 		}
-		if np > 0 && nu > 0 {
-			return nil, "res=unspecified raw=" + showPatches(r.ps)
+		dev := ""
+		if deviated {
+			dev = " dev=1"
 		}
-		return nil, "res=" + showPatches(r.ps)
+		if np > 0 && nu > 0 {
+			return nil, "res=unspecified raw=" + showPatches(r.ps) + dev
+		}
+		return nil, "res=" + showPatches(r.ps) + dev
 	case c := <-announce:
 		_ = c
 		return fail("unexpected-call-at-end")
@@ -623,6 +631,149 @@ func randomUniverse(rng *rand.Rand) *universe {
 		queue = append(queue, u.predictSpawn(t)...)
 	}
 	return u
+}
+
+
+// chainUniverse: one initial vulnerability whose fix introduces new ones, `depth` levels deep; level l (1-based) introduces
+// fan[l-1] (1..3) vulnerabilities at once. Per-vuln branch (relax, groupIntroduced=false): every introduced vulnerability
+// gets its own follow-up attempt `ids ++ [v]`; the attempt for child cont[l-1] continues the chain, the others fix everything.
+// Grouped branch (override): one follow-up `ids ++ all`. Every attempt bumps x to its own version, so all patches are
+// distinct (CmpEqImpliesEq holds) and the expected result has one patch per attempt. Attempts over 3 and 5..7 accumulated
+// ids with fan-out >= 2 are the shapes where a follow-up slice built without cloning would share its backing array.
+func chainUniverse(grouped bool, depth int, fan, cont []int, relaxStyle, second bool) *universe {
+	base := []req{{"x", "1.0.0"}, {"y", "1.0.0"}}
+	u := &universe{grouped: grouped, vulns: []string{"V0"}, reqs: base, table: map[string]outcome{}}
+	var keep []string // initial vulnerabilities no attempt of the chain fixes
+	if second {
+		u.vulns = append(u.vulns, "W")
+		keep = []string{"W"}
+		u.put([]string{"W"}, outcome{Reqs: []req{{"x", "1.0.0"}, {"y", "2.0.0"}}, Vulns: []string{"V0"}})
+	}
+	n := 1
+	ver := func() string {
+		n++
+		v := fmt.Sprintf("%d.0.0", n)
+		if _, err := semver.NPM.Parse(v); err != nil {
+			panic("chain version does not parse: " + v)
+		}
+		if relaxStyle {
+			return "^" + v
+		}
+		return v
+	}
+	bump := func() []req { return []req{{"x", ver()}, {"y", "1.0.0"}} }
+	task := []string{"V0"}
+	for l := 1; l <= depth; l++ {
+		var intro []string
+		for i := 1; i <= fan[l-1]; i++ {
+			intro = append(intro, fmt.Sprintf("L%dN%d", l, i))
+		}
+		u.put(task, outcome{Reqs: bump(), Vulns: append(append([]string(nil), keep...), intro...)})
+		if grouped {
+			task = append(append([]string(nil), task...), intro...)
+			continue
+		}
+		c := cont[l-1] % len(intro)
+		for i, v := range intro {
+			if i != c {
+				u.put(append(append([]string(nil), task...), v), outcome{Reqs: bump(), Vulns: keep})
+			}
+		}
+		task = append(append([]string(nil), task...), intro[c])
+	}
+	u.put(task, outcome{Reqs: bump(), Vulns: keep})
+	return u
+}
+
+// chainUniverses: depth 1..8 x fan-out patterns x both branches; style and the extra initial vulnerability alternate.
+func chainUniverses(rng *rand.Rand, perDepth int) []*universe {
+	var us []*universe
+	k := 0
+	for depth := 1; depth <= 8; depth++ {
+		for v := 0; v < perDepth; v++ {
+			fan := make([]int, depth)
+			cont := make([]int, depth)
+			for l := range fan {
+				switch v % 3 {
+				case 0:
+					fan[l] = 2 + rng.Intn(2) // every level introduces >= 2
+				case 1:
+					fan[l] = 1 + rng.Intn(3)
+				default:
+					fan[l] = 1
+					if l >= 2 {
+						fan[l] = 2 + rng.Intn(2) // single file down to three accumulated ids, then fan out
+					}
+				}
+				cont[l] = rng.Intn(3)
+			}
+			for _, g := range []bool{false, true} {
+				k++
+				us = append(us, chainUniverse(g, depth, fan, cont, k%3 == 0, k%4 == 1))
+			}
+		}
+	}
+	return us
+}
+
+var preReadCalls atomic.Int64
+
+// runFree: the real ComputePatches with an UNGATED table function under the Go scheduler, GOMAXPROCS gmp, and a
+// deterministic pattern of Gosched / short sleeps at the entry of every attempt (before it reads its ids).
+func runFree(u *universe, gmp, rep int) string {
+	old := runtime.GOMAXPROCS(gmp)
+	defer runtime.GOMAXPROCS(old)
+	preReadCalls.Store(0)
+	guidedremediation.VerifC16PreRead = func() {
+		c := preReadCalls.Add(1)
+		switch (c*2654435761 + int64(rep)*40503) >> 3 % 5 {
+		case 1:
+			runtime.Gosched()
+		case 2:
+			for i := 0; i < 4; i++ {
+				runtime.Gosched()
+			}
+		case 3:
+			time.Sleep(30 * time.Microsecond)
+		case 4:
+			time.Sleep(200 * time.Microsecond)
+		}
+	}
+	defer func() { guidedremediation.VerifC16PreRead = nil }()
+	return hx.Guard(func() string {
+		ps, err := guidedremediation.VerifC16ComputePatches(u.reqs, u.vulns, u.grouped, func(ids []string) outcome { return u.get(ids) })
+		if err != nil {
+			return "out=error"
+		}
+		return "out=" + showPatches(ps)
+	})
+}
+
+func parseFreeCase(l string) (*universe, int, int) {
+	t := strings.Split(l, " ")
+	u, _ := parsePatchesCase(strings.Join(append(append([]string{"patches"}, t[1:5]...), "-"), " "))
+	var g, r int
+	fmt.Sscanf(t[5], "g%dr%d", &g, &r)
+	if g < 1 {
+		g = 1
+	}
+	return u, g, r
+}
+
+// freeStream runs sequentially (the perturbation hook is global and a race report must be attributable to one case):
+// "@case <line>" goes to stderr before each run, stdout is flushed after each.
+func freeStream(us []*universe, reps int, out *hx.Out) {
+	for _, u := range us {
+		head := "pfree" + strings.TrimPrefix(u.head(), "patches")
+		for _, g := range []int{1, 16} {
+			for r := 0; r < reps; r++ {
+				c := fmt.Sprintf("%s g%dr%d", head, g, r)
+				fmt.Fprintln(os.Stderr, "@case "+c)
+				out.Emit(c, runFree(u, g, r))
+				out.Flush()
+			}
+		}
+	}
 }
 
 // ------------------------------------------------------------------ (b) cache
@@ -964,7 +1115,7 @@ func scanOnce(seed int64) {
 // ------------------------------------------------------------------ main
 
 func main() {
-	mode := flag.String("mode", "corr", "corr|scan")
+	mode := flag.String("mode", "corr", "corr|free|scan")
 	o := hx.Parse()
 	if *mode == "scan" {
 		scanOnce(o.Seed)
@@ -993,6 +1144,11 @@ func main() {
 					reply = "res=incomplete"
 				}
 				emit(l, reply)
+			case strings.HasPrefix(l, "pfree "):
+				u, g, r := parseFreeCase(l)
+				fmt.Fprintln(os.Stderr, "@case "+l)
+				emit(l, runFree(u, g, r))
+				out.Flush()
 			case strings.HasPrefix(l, "cache "):
 				keys, acts := parseCacheCase(l)
 				cr := runCache(keys, acts)
@@ -1006,6 +1162,19 @@ func main() {
 	}
 	thorough := o.Tier == "thorough"
 	rng := hx.Rng(o)
+	perDepth := 3
+	if thorough {
+		perDepth = 9
+	}
+	chains := chainUniverses(rand.New(rand.NewSource(o.Seed*7919+1)), perDepth)
+	if *mode == "free" {
+		reps := 2
+		if thorough {
+			reps = 5
+		}
+		freeStream(append(chains, fixedUniverses()...), reps, out)
+		return
+	}
 	// (a) fixed universes: all delivery orders; random universes: all orders up to a cap
 	capU := 800
 	if thorough {
@@ -1021,6 +1190,11 @@ func main() {
 	for _, u := range fixedUniverses() {
 		u := u
 		spawn(func() { enumPatches(u, capU, emit, nil) })
+	}
+	for _, u := range chains {
+		u := u
+		r2 := rand.New(rand.NewSource(rng.Int63()))
+		spawn(func() { enumPatches(u, capU/16, emit, r2) })
 	}
 	for i := 0; i < o.N; i++ {
 		u := randomUniverse(rng)
